@@ -223,7 +223,8 @@ fn quantity_to_time_ok(v: f32, t: i64) -> bool {
 fn quantity_to_time(e: &mut Eng, thorough: bool, budget: Budget) {
     // all f32 bit patterns below 9e9 in magnitude: 0 ..= bits(9e9) for both signs
     let top = 9.0e9f32.to_bits() as u64; // positive finite values with bits < top are < 9e9
-    let step: u64 = if thorough { 1 } else { 64 };
+    let step: u64 = 1; // the complete domain takes a few seconds: both tiers sweep it
+    let _ = thorough;
     let n = (top + step - 1) / step;
     par(e, n, 1 << 14, budget, |i, e| {
         let b = (i * step) as u32;
@@ -250,7 +251,7 @@ fn quantity_to_time(e: &mut Eng, thorough: bool, budget: Budget) {
             e.sample(|| format!("{:?} s", f32::from_bits(b)));
         }
     });
-    if !thorough {
+    if false {
         // power-of-two neighbourhoods in full
         for ex in 1u32..=160 {
             for d in -64i64..=64 {
@@ -324,11 +325,7 @@ pub fn run(ctx: &Ctx) -> Vec<Eng> {
     time_to_quantity(&mut e2, ctx.thorough, budget);
     let mut e3 = Eng::new(
         "c18-quantity-to-time",
-        if ctx.thorough {
-            "EVERY finite f32 second value below 9e9 in magnitude (both signs): |Time::try_from(v s) - v*1e9| <= one f32 rounding of the product + 1 ns (exact integer comparison)"
-        } else {
-            "every 64th f32 bit pattern below 9e9 in magnitude (both signs) plus +-64 patterns around every power of two: |Time::try_from(v s) - v*1e9| <= one f32 rounding of the product + 1 ns (exact integer comparison)"
-        },
+        "EVERY finite f32 second value below 9e9 in magnitude (both signs, 2.7e9 values): |Time::try_from(v s) - v*1e9| <= one f32 rounding of the product + 1 ns (exact integer comparison)",
         "",
     );
     quantity_to_time(&mut e3, ctx.thorough, budget);
